@@ -87,6 +87,9 @@ pub struct Case {
     pub text: String,
     pub expected: Vec<Expect>,
     pub label: String,
+    /// the comparator fails only on one ordered pair and prints HIT when it does: a result line
+    /// preceded by a HIT must be the failure, any other line the reference
+    pub pair_mode: bool,
 }
 
 #[derive(Clone, Debug)]
@@ -102,11 +105,18 @@ fn seq_str(v: &[i64]) -> String {
 /// program that prints the result of every sorting function on `input`; with `poison`, the
 /// comparator fails whenever it sees that element
 pub fn case(input: &Input, n: usize, poison: Option<i64>) -> Case {
+    case_with(input, n, poison, None)
+}
+
+pub fn case_with(input: &Input, n: usize, poison: Option<i64>, pair: Option<(i64, i64)>) -> Case {
     let k = input.k;
     let len = input.values.len();
     let mut text = String::new();
     text.push_str(&format!("fn v_good(v_a: int, v_b: int)->int{{ cmp(v_a % {k}, v_b % {k}) }}\n"));
-    if let Some(p) = poison {
+    if let Some((x, y)) = pair {
+        text.push_str("fn v_hit()->int{ let v_d = display(\"HIT\"); error(\"poison\") }\n");
+        text.push_str(&format!("fn v_c(v_a: int, v_b: int)->int{{ if(v_a == {x} && v_b == {y}, v_hit(), cmp(v_a % {k}, v_b % {k})) }}\n"));
+    } else if let Some(p) = poison {
         text.push_str(&format!("fn v_c(v_a: int, v_b: int)->int{{ if(v_a == {p} || v_b == {p}, error(\"poison\"), cmp(v_a % {k}, v_b % {k})) }}\n"));
     } else {
         text.push_str(&format!("fn v_c(v_a: int, v_b: int)->int{{ cmp(v_a % {k}, v_b % {k}) }}\n"));
@@ -159,11 +169,55 @@ pub fn case(input: &Input, n: usize, poison: Option<i64>) -> Case {
         expected.push(x);
     }
     text.push_str("    true\n}\n");
-    let label = format!("C19 len={} K={} {} n={} poison={}", len, k, input.pattern, n, poison.map_or("none".to_string(), |p| p.to_string()));
-    Case { text, expected, label }
+    let label = format!(
+        "C19 len={} K={} {} n={} poison={}",
+        len,
+        k,
+        input.pattern,
+        n,
+        match (poison, pair) {
+            (_, Some((x, y))) => format!("pair({x},{y})"),
+            (Some(p), _) => p.to_string(),
+            _ => "none".to_string(),
+        }
+    );
+    Case { text, expected, label, pair_mode: pair.is_some() }
 }
 
 fn check_output(c: &Case, out: &str) -> Option<String> {
+    if c.pair_mode {
+        let mut hit = false;
+        let mut idx = 0usize;
+        for l in out.lines() {
+            if l == "HIT" {
+                hit = true;
+                continue;
+            }
+            let Some(e) = c.expected.get(idx) else { return Some(format!("more result lines than expected: {l}")) };
+            let ok = if hit {
+                l == "ERR:poison"
+            } else {
+                match e {
+                    Expect::Exact(s) => l == s,
+                    Expect::OneOf(v) => v.iter().any(|s| s == l),
+                }
+            };
+            if !ok {
+                return Some(format!(
+                    "result #{idx}: comparator {} during this call, got {}, expected {}",
+                    if hit { "returned its error" } else { "never failed" },
+                    l.chars().take(200).collect::<String>(),
+                    if hit { "ERR:poison".to_string() } else { format!("{e:?}").chars().take(200).collect::<String>() }
+                ));
+            }
+            hit = false;
+            idx += 1;
+        }
+        if idx != c.expected.len() {
+            return Some(format!("{idx} result lines, {} expected", c.expected.len()));
+        }
+        return None;
+    }
     let lines: Vec<&str> = out.lines().collect();
     if lines.len() != c.expected.len() {
         return Some(format!("{} lines printed, {} expected: {:?}", lines.len(), c.expected.len(), lines.iter().take(3).collect::<Vec<_>>()));
@@ -212,6 +266,29 @@ pub fn make(spec: &JobSpec, ex: &mut Executor, out: &mut JobResult) -> Option<Bo
                 for i in idxs {
                     cases.push(case(&input, n.max(1), Some(input.values[i])));
                 }
+                // a comparator that fails on exactly one ordered pair: adjacent input pairs in both
+                // orders (what run detection and insertion compare) plus seeded far pairs
+                if len >= 2 {
+                    let mut pairs: Vec<(usize, usize)> = vec![];
+                    for i in 0..len - 1 {
+                        pairs.push((i, i + 1));
+                        pairs.push((i + 1, i));
+                    }
+                    for _ in 0..6 {
+                        let a = rng.below(len as u64) as usize;
+                        let b = rng.below(len as u64) as usize;
+                        if a != b {
+                            pairs.push((a, b));
+                        }
+                    }
+                    if pairs.len() > poison_max * 2 {
+                        rng.shuffle(&mut pairs);
+                        pairs.truncate(poison_max * 2);
+                    }
+                    for (a, b) in pairs {
+                        cases.push(case_with(&input, n.max(1), None, Some((input.values[a], input.values[b]))));
+                    }
+                }
             }
             if out.samples.len() < 2 {
                 if let Some(c) = cases.iter().find(|c| c.label.contains("poison=none")) {
@@ -251,7 +328,7 @@ pub fn make(spec: &JobSpec, ex: &mut Executor, out: &mut JobResult) -> Option<Bo
                 _ => String::new(),
             };
             let expected = reference.lines().map(|l| Expect::Exact(l.to_string())).collect();
-            let case = Case { text: sc.program.clone(), expected, label: sc.label.clone() };
+            let case = Case { text: sc.program.clone(), expected, label: sc.label.clone(), pair_mode: false };
             if sc.ops == crate::engine::standard_ops() {
                 Some(Box::new(RefJob { cases: vec![case] }))
             } else {
@@ -335,6 +412,11 @@ impl Job for RefJob {
         out.tuples.insert(format!("{}|{}|{}|{}", parts.get(1).unwrap_or(&""), parts.get(2).unwrap_or(&""), parts.get(3).unwrap_or(&""), if c.label.ends_with("poison=none") { "ok" } else { "poison" }));
         if c.label.ends_with("poison=none") {
             out.probe("reference_compared");
+        } else if c.pair_mode {
+            out.probe("comparator_fails_on_one_ordered_pair");
+            if text.contains("HIT") {
+                out.probe("ordered_pair_failure_reached");
+            }
         } else {
             out.probe("comparator_error_value_midway");
         }
